@@ -7,7 +7,7 @@ CONSTANTS
   Pres <- PresAll
   MaxListeners = 1
   ListenerKinds <- KindsOne
-  ListenerValues <- ValuesL
+  ListenerValues <- ValuesOne
   OutValues <- ValuesFew
   OutKinds <- KindsOne
   MCScopes <- ScopesTop
